@@ -15,6 +15,9 @@ def run(prop, tier):
     items += camx.emit_layouts(out, tier, prop + ' met formats', family='met')
     out.cov['configurations_emitted'] = len(items)
     traces = []
+    if prop == 'C13':       # formats that have both reader families
+        items = [it for it in items if it['cfg']['fmt'] not in
+                 ('cloud_rain', 'lateral_boundary')]
     if prop in ('C09', 'C13'):
         args = [(i + 1, it) for i, it in enumerate(items)]
         res = run_cases(camx.case_encode_read, args, timeout=60,
